@@ -21,7 +21,9 @@ package main
 import (
 	"context"
 	"fmt"
+	"io/ioutil"
 	"math/rand"
+	"os"
 	"path"
 	"sort"
 	"strings"
@@ -29,7 +31,10 @@ import (
 	"time"
 
 	"github.com/pingcap/kvproto/pkg/pdpb"
+	"github.com/tikv/pd/pkg/encryption"
 	"github.com/tikv/pd/pkg/tsoutil"
+	"github.com/tikv/pd/pkg/typeutil"
+	"github.com/tikv/pd/server/encryptionkm"
 	"github.com/tikv/pd/server/id"
 	"verif/harness/lib/etcdx"
 	"verif/harness/lib/ev"
@@ -51,6 +56,7 @@ type wrun struct {
 	w        *tsow.World
 	rng      *rand.Rand
 	ids      []id.Allocator
+	kms      []*encryptionkm.KeyManager // encryption key managers (guarded key "encryption_keys")
 	events   []string
 	noGrant  map[int][]span // member idx*1000+gen -> spans
 	extDel   bool
@@ -114,7 +120,13 @@ func (x *wrun) campaign(m *tsow.Member, keep bool) error {
 func (x *wrun) probes() {
 	w := x.w
 	for _, m := range w.Members {
-		switch x.rng.Intn(6) {
+		switch x.rng.Intn(7) {
+		case 6:
+			if km := x.kms[m.Idx]; km != nil {
+				// rotates / saves the data keys through a leader-guarded transaction
+				km.SetLeadership(m.M.GetLeadership())
+				x.r.Count("encryption_key_save_attempts", 1)
+			}
 		case 0:
 			m.M.SetMemberLeaderPriority(uint64(1+x.rng.Intn(3)), x.rng.Intn(10))
 		case 1:
@@ -232,6 +244,7 @@ func (x *wrun) run(steps int) string {
 			nm, err := w.Restart(i)
 			if err == nil {
 				x.ids[i] = id.NewAllocator(nm.Cl.Client, w.Root, nm.M.MemberValue())
+				x.kms[i] = newKeyManager(nm)
 				x.note("m%d crashed, restarted as generation %d", i, nm.Gen)
 				delete(keepOff, i)
 				evn = "x"
@@ -308,6 +321,9 @@ func (x *wrun) judge(mode string) {
 		return m
 	}
 	guardedSuffix := func(k string) string {
+		if k == encryptionkm.EncryptionKeysPath {
+			return "encryption-keys"
+		}
 		rel := strings.TrimPrefix(k, w.Root)
 		switch {
 		case rel == "/timestamp":
@@ -406,6 +422,32 @@ func short(v string, values map[string]int) string {
 	return "<other>"
 }
 
+var masterKeyFile string
+var masterKeyOnce sync.Once
+
+// newKeyManager returns an encryption key manager on the member's client (file master key), or nil.
+func newKeyManager(m *tsow.Member) *encryptionkm.KeyManager {
+	masterKeyOnce.Do(func() {
+		f, err := ioutil.TempFile("", "verif_master_key")
+		if err == nil {
+			f.WriteString("0123456789abcdef0123456789abcdef0123456789abcdef0123456789abcdef\n")
+			f.Close()
+			masterKeyFile = f.Name()
+		}
+	})
+	if masterKeyFile == "" {
+		return nil
+	}
+	cfg := &encryption.Config{DataEncryptionMethod: "aes128-ctr", DataKeyRotationPeriod: typeutil.NewDuration(time.Hour)}
+	cfg.MasterKey.Type = "file"
+	cfg.MasterKey.FilePath = masterKeyFile
+	km, err := encryptionkm.NewKeyManager(m.Cl.Client, cfg)
+	if err != nil {
+		return nil
+	}
+	return km
+}
+
 func newRun(r *ev.Run, e *etcdx.Etcd, rng *rand.Rand, root string, n int) (*wrun, error) {
 	w, err := tsow.NewWorld(e, root, n, 50*time.Millisecond, 5*time.Millisecond)
 	if err != nil {
@@ -415,6 +457,7 @@ func newRun(r *ev.Run, e *etcdx.Etcd, rng *rand.Rand, root string, n int) (*wrun
 	x := &wrun{r: r, e: e, w: w, rng: rng, noGrant: map[int][]span{}, values: map[string]int{}}
 	for _, m := range w.Members {
 		x.ids = append(x.ids, id.NewAllocator(m.Cl.Client, w.Root, m.M.MemberValue()))
+		x.kms = append(x.kms, newKeyManager(m))
 		x.values[m.M.MemberValue()] = m.Idx
 		x.openSpan(m, "never campaigned")
 	}
@@ -456,7 +499,13 @@ func gatedPhase(r *ev.Run, e *etcdx.Etcd, rng *rand.Rand) {
 					m.Cl.Gate, m.Cl.Done = sc.Gate, sc.Done
 				}
 				ws := []func(){
-					func() { old.Alloc.UpdateTSO(); x.ids[0].Rebase() },
+					func() {
+						old.Alloc.UpdateTSO()
+						x.ids[0].Rebase()
+						if km := x.kms[0]; km != nil {
+							km.SetLeadership(old.M.GetLeadership())
+						}
+					},
 					func() {
 						switch v {
 						case "revoke-then-campaign":
@@ -795,6 +844,9 @@ func main() {
 		levelB(r, rng)
 	}
 	_ = path.Join
+	if masterKeyFile != "" {
+		os.Remove(masterKeyFile)
+	}
 	r.Floor(10)
 	r.Finish()
 }
